@@ -33,6 +33,13 @@ def configs(tier):
     shapes = [((1, 1), 1), ((1, 1), 2), ((2, 1), 1), ((2, 1), 2)]
     for soft in (False, True):
         out.append(dict(key=f"{'soft' if soft else 'strict'},sizes=(1, 1),unitary=1,then-continuum-edited-and-re-checked", sizes=[1, 1], k=1, soft=soft, history=True, cost=500))
+    # one annotator holding two units on the SAME segment with different labels (distinct units that tie on position), one of them
+    # repeated with the other one in between / before / after: slots are (a0, a1) per unitary alignment; 1 = a0's 'x' unit, 2 = its 'y' twin
+    for soft in (False, True):
+        for a0 in ((1, 2, 1), (2, 1, 2), (1, 1, 2), (1, 2, 2), (2, 1, 1), (2, 2, 1)):
+            fixed = [a0[0], 3, a0[1], 0, a0[2], 0]
+            out.append(dict(key=f"{'soft' if soft else 'strict'},coinciding-twin-units,a0-slots={a0}", sizes=[2, 1], k=3, soft=soft, fixed=fixed, coincide=True, cost=50))
+        out.append(dict(key=f"{'soft' if soft else 'strict'},coinciding-twin-units,valid", sizes=[2, 1], k=2, soft=soft, fixed=[1, 3, 2, 0], coincide=True, cost=50))
     if tier == "thorough":
         shapes += [((1, 1), 3), ((2, 2), 1), ((2, 2), 2)]
     for sizes, k in shapes:
@@ -56,7 +63,17 @@ def harness(cfg, ns):
     n = len(sizes)
 
     def h(ctx):
-        c, info = common.build_continuum(ns, ctx, sizes, coords="sym", labels="x")
+        if cfg.get("coincide"):
+            c = co.Continuum()
+            st0, en0, st1, en1 = ctx.fresh("s0_"), ctx.fresh("e0_"), ctx.fresh("s1_"), ctx.fresh("e1_")
+            ctx.solver.add(en0.e - st0.e > lift(ns.pseg.SEGMENT_PRECISION), en1.e - st1.e > lift(ns.pseg.SEGMENT_PRECISION))
+            c.add(ANN[0], Segment(st0, en0), "x")
+            c.add(ANN[0], Segment(st0, en0), "y")
+            c.add(ANN[1], Segment(st1, en1), "x")
+            info = {(0, 0): dict(start=st0, end=en0, label="x"), (0, 1): dict(start=st0, end=en0, label="y"), (1, 0): dict(start=st1, end=en1, label="x")}
+            ctx.model = None
+        else:
+            c, info = common.build_continuum(ns, ctx, sizes, coords="sym", labels="x")
         cunits = [(a, u) for a, u in c]                    # (annotator, Unit) of the continuum
         if cfg.get("history"):
             for v in info.values():                        # so that the unit added later is genuinely new
@@ -91,7 +108,7 @@ def harness(cfg, ns):
                     st, en = unit.segment.start, unit.segment.end
                     desc.append((u, a, "unit", o))
                 tup.append((ANN[a], unit))
-                slots.append((ANN[a], st, en))
+                slots.append((ANN[a], st, en, unit.annotation))
             uas.append(al.UnitaryAlignment(tup))
         ctx.notes["inputs"] = inputs
 
@@ -103,7 +120,7 @@ def harness(cfg, ns):
                 else:
                     d.append(list(x))
             return dict(kind="check", history=bool(cfg.get("history")), soft=soft, sizes=list(sizes), k=k,
-                        units=[[ANN[a], common.frs(mval(m, v["start"])), common.frs(mval(m, v["end"])), "x"] for (a, j), v in sorted(info.items())],
+                        units=[[ANN[a], common.frs(mval(m, v["start"])), common.frs(mval(m, v["end"])), v.get("label", "x")] for (a, j), v in sorted(info.items())],
                         slots=d)
         ctx.notes["realize"] = rz
         cls = al.SoftAlignment if soft else al.Alignment
@@ -125,8 +142,8 @@ def harness(cfg, ns):
         conds = []
         for (an, unit) in cunits:
             cnt = z3.IntVal(0)
-            for (an2, s2, e2) in slots:
-                if an2 == an:
+            for (an2, s2, e2, lab2) in slots:
+                if an2 == an and lab2 == unit.annotation:
                     cnt = cnt + z3.If(z3.And(lift(s2) == lift(unit.segment.start), lift(e2) == lift(unit.segment.end)), 1, 0)
             conds.append(cnt >= 1 if soft else cnt == 1)
         want = z3.And(*conds)
@@ -134,10 +151,10 @@ def harness(cfg, ns):
         # ("succeeds iff every unit of the continuum occurs once" / "fails when a unit occurs twice") pull in
         # opposite directions, so neither outcome is demanded there.
         rep_foreign = []
-        for i1, (a1, s1, e1) in enumerate(slots):
-            for (a2, s2, e2) in slots[i1 + 1:]:
-                if a1 == a2:
-                    is_cont = z3.Or(*[z3.And(lift(s1) == lift(u.segment.start), lift(e1) == lift(u.segment.end)) for (an, u) in cunits if an == a1] + [z3.BoolVal(False)])
+        for i1, (a1, s1, e1, l1) in enumerate(slots):
+            for (a2, s2, e2, l2) in slots[i1 + 1:]:
+                if a1 == a2 and l1 == l2:
+                    is_cont = z3.Or(*[z3.And(lift(s1) == lift(u.segment.start), lift(e1) == lift(u.segment.end)) for (an, u) in cunits if an == a1 and u.annotation == l1] + [z3.BoolVal(False)])
                     rep_foreign.append(z3.And(lift(s1) == lift(s2), lift(e1) == lift(e2), z3.Not(is_cont)))
         amb = z3.Or(*rep_foreign) if (rep_foreign and not soft) else z3.BoolVal(False)
         ok = z3.BoolVal(res == "ok")
